@@ -153,6 +153,29 @@ func $NC(a int) (res int) {
 	}
 	return res*1000 + v
 }`, entries: []*Entry{callEntry("$NC", 1, nil)}},
+	// range over an iterator without any variable (`for range it`)
+	{name: "range-without-variables", decls: baseGen + `
+func $NC(a int) (n int) {
+	for range $RANGE{$NG(a)} {
+		n++
+		if n == 2 {
+			break
+		}
+	}
+	for range $RANGE{$NG(a)} {
+		n += 10
+	}
+	return
+}
+
+$GEN{$NH(a int)}{int}{
+	n := 0
+	for range $RANGE{$NG(a)} {
+		n++
+		$YIELD{n}
+	}
+	$RET
+}`, entries: []*Entry{callEntry("$NC", 1, nil), drive("$NH", "int", 1, nil)}},
 	// locals named like the import names a file may already use for the runtime package (seq, sq): the generated
 	// code must not refer to the package through a name the generator's own locals shadow
 	{name: "locals-named-like-the-runtime-import", decls: baseGen + `
@@ -610,6 +633,21 @@ $GEN{$NGen(a int)}{int}{
 	$YIELD{g(a)}
 	$RET
 }`, entries: []*Entry{drive("$NGen", "int", 1, nil)}},
+	// closures whose type differs from the callee's: unnamed parameters, a wider result type, a variadic parameter handed on as a slice
+	{name: "eta-literal-type-differs-from-callee", tags: []string{"eta-shape"}, decls: byGen + `
+func $NZero() int            { return 40 }
+func $NIdent(x int) int      { return x + 1 }
+func $NTotal(xs []int) int   { return len(xs) * 7 }
+
+var $NA func(int) int = func(int) int { return $NZero() }
+var $NV func(...int) int = func(xs ...int) int { return $NTotal(xs) }
+var $NW func(int) any = func(x int) any { return $NIdent(x) }
+
+func $NB(a int) int {
+	c := func(x int) any { return $NIdent(x) }
+	var any1 any = c(a)
+	return $NA(a) + $NV(a, a, a) + $NW(a).(int) + any1.(int)
+}`, entries: []*Entry{callEntry("$NB", 1, nil)}},
 	// the closure's parameter type is the file's ONLY use of the import; after eta reduction the import must go
 	// (the callee lives in another file of the package)
 	{name: "eta-param-type-is-the-only-use-of-an-import", tags: []string{"eta-shape"}, imports: []string{`"time"`}, decls: byGen + `
@@ -750,6 +788,7 @@ var injections = []injection{
 	// a range the compiler leaves native (pointer to array), with its own break/continue, as a trivial statement
 	{name: "range-over-pointer-to-array-trivial-break-continue", stmt: "arr := [4]int{4, 5, 6, 7}\n\tfor i, v := range &arr {\n\t\tif i == 1 {\n\t\t\tcontinue\n\t\t}\n\t\tif i == 3 {\n\t\t\tbreak\n\t\t}\n\t\ttr.Ev(1, i, v)\n\t}\n\ttr.Ev(2)"},
 	// negative controls: inside a nested plain closure these constructs must be accepted and preserved
+	{name: "control-select-with-break-in-closure", control: true, stmt: "tr.Ev(1, func() int {\n\t\tch := tr.Chan(7)\n\t\tn := 0\n\t\tselect {\n\t\tcase v := <-ch:\n\t\t\tif a > 0 {\n\t\t\t\tbreak\n\t\t\t}\n\t\t\tn = v\n\t\t}\n\t\treturn n + 1\n\t}())"},
 	{name: "control-native-range-break-continue-in-closure", control: true, stmt: "func() {\n\t\tarr := [4]int{1, 2, 3, 4}\n\t\tfor i, v := range &arr {\n\t\t\tif i == 0 {\n\t\t\t\tcontinue\n\t\t\t}\n\t\t\tif v == 4 {\n\t\t\t\tbreak\n\t\t\t}\n\t\t\ttr.Ev(1, i, v)\n\t\t}\n\t}()"},
 	{name: "control-native-range-break-in-closure-returning-any", control: true, stmt: "tr.Ev(1, func() any {\n\t\tn := 0\n\t\tarr := [4]int{1, 2, 3, 4}\n\t\tfor _, v := range &arr {\n\t\t\tif v == 3 {\n\t\t\t\tbreak\n\t\t\t}\n\t\t\tn += v\n\t\t}\n\t\treturn n\n\t}())"},
 	{name: "control-labelled-range-plain-break-in-closure", control: true, stmt: "func() {\n\touter:\n\t\tfor i, v := range []int{5, 6, 7} {\n\t\t\tif i == 2 {\n\t\t\t\tbreak\n\t\t\t}\n\t\t\tfor j := 0; j < 2; j++ {\n\t\t\t\tif j == 1 {\n\t\t\t\t\tcontinue outer\n\t\t\t\t}\n\t\t\t\ttr.Ev(1, i, v, j)\n\t\t\t}\n\t\t}\n\t}()"},
